@@ -77,7 +77,7 @@ fn check_partition(v: &[ScanRange], lo: u32, hi: u32, h: u32) -> ScanPriority {
     at
 }
 
-//@ {"p":"C15","tier":"thorough","clause":"one insertion into a one-range queue through the public API only (SpanningTree::Leaf(cur).insert(ins, force).into_vec()): output is a sorted, gap-free, merged partition of the hull with non-empty ranges; the priority of every height is the dominance rule applied pointwise (equal keeps; inserted Verify/Scanned overrides; current Scanned sticky unless forced; else the higher priority), only-current / only-inserted heights keep their priority, uncovered heights inside the hull become Historic","bounds":"all non-empty ranges over u32 heights x all 7x7 priorities x both force flags; symbolic probe height (did not finish in 900 s: Vec + recursion; kept as a thorough-tier item)","covers":5,"t":5400,"unwind":6}
+//@ {"p":"C15","tier":"experimental","why_experimental":"out of memory at 14 GB after 950 s","clause":"one insertion into a one-range queue through the public API only (SpanningTree::Leaf(cur).insert(ins, force).into_vec()): output is a sorted, gap-free, merged partition of the hull with non-empty ranges; the priority of every height is the dominance rule applied pointwise (equal keeps; inserted Verify/Scanned overrides; current Scanned sticky unless forced; else the higher priority), only-current / only-inserted heights keep their priority, uncovered heights inside the hull become Historic","bounds":"all non-empty ranges over u32 heights x all 7x7 priorities x both force flags; symbolic probe height (did not finish in 900 s: Vec + recursion; kept as a thorough-tier item)","covers":5,"t":5400,"unwind":6}
 #[kani::proof]
 #[kani::unwind(6)]
 fn c15_leaf_insert_pointwise() {
@@ -222,7 +222,7 @@ fn c15_dominance_and_join() {
 // Tree level: SpanningTree::insert / into_vec on an arbitrary valid two-leaf tree.
 // ---------------------------------------------------------------------------------------------
 
-//@ {"p":"C15","tier":"thorough","clause":"SpanningTree::insert into an arbitrary valid 2-leaf queue (adjacent ranges, different priorities) followed by into_vec: sorted, gap-free, merged partition of the hull; pointwise priority = dominance rule over whichever existing range covers the height","bounds":"2-leaf tree with symbolic split and priorities, inserted range symbolic; u32 heights","covers":2,"t":3600}
+//@ {"p":"C15","tier":"experimental","why_experimental":"still in symex after 3600 s (recursion + into_vec)","clause":"SpanningTree::insert into an arbitrary valid 2-leaf queue (adjacent ranges, different priorities) followed by into_vec: sorted, gap-free, merged partition of the hull; pointwise priority = dominance rule over whichever existing range covers the height","bounds":"2-leaf tree with symbolic split and priorities, inserted range symbolic; u32 heights","covers":2,"t":3600}
 #[kani::proof]
 #[kani::unwind(7)]
 fn c15_tree_insert_2leaf() {
@@ -262,5 +262,35 @@ fn c15_tree_insert_2leaf() {
     assert!(got == want);
     kani::cover!(out.len() >= 4);
     kani::cover!(out.len() == 1);
+    core::mem::forget(out);
+}
+
+//@ {"p":"C15","tier":"experimental","clause":"SpanningTree::insert into an arbitrary valid 2-leaf queue never panics (every split point handed to the children lies inside the child it is handed to) and the resulting tree spans exactly the hull of the queue and the inserted range","bounds":"2-leaf tree with symbolic split and priorities, inserted range symbolic; u32 heights","covers":2,"t":2400}
+#[kani::proof]
+#[kani::unwind(7)]
+fn c15_tree_insert_2leaf_span() {
+    let (a, b, c): (u32, u32, u32) = (kani::any(), kani::any(), kani::any());
+    kani::assume(a < b && b < c);
+    let (p1, p2) = (any_priority(), any_priority());
+    kani::assume(p1 != p2);
+    let tree = SpanningTree::Parent {
+        span: bh(a)..bh(c),
+        left: Box::new(SpanningTree::Leaf(range(a, b, p1))),
+        right: Box::new(SpanningTree::Leaf(range(b, c, p2))),
+    };
+    let (is, ie): (u32, u32) = (kani::any(), kani::any());
+    kani::assume(is < ie);
+    let ip = any_priority();
+    let force: bool = kani::any();
+    let out = tree.insert(range(is, ie, ip), force);
+    let lo = a.min(is);
+    let hi = c.max(ie);
+    let span = match &out {
+        SpanningTree::Leaf(e) => e.block_range().clone(),
+        SpanningTree::Parent { span, .. } => span.clone(),
+    };
+    assert!(span.start == bh(lo) && span.end == bh(hi));
+    kani::cover!(is < a && ie == b);
+    kani::cover!(is > a && ie < c && is < b && ie > b);
     core::mem::forget(out);
 }
